@@ -1,8 +1,363 @@
-import HitenModel.Lemmas.C08Mv
-import HitenModel.Gen.C08
-namespace HitenModel.Props.C08
-open HitenModel.C08
+/-
+  Props/C08.lean — property C08: the Lie-series normal form removes the right terms by a canonical transformation.
 
-theorem placeholder_K : Kpoly 6 3 = 6 := by decide
+  Model: `Core/C08.lean` (sparse polynomials in (q1,q2,q3,p1,p2,p3) over a coefficient type `K`; the Poisson bracket,
+  term selection, homological solve with its small-divisor guard, truncated Lie series with the code's bracket counts,
+  both `_lie_transform` loops).  Here `K` is an arbitrary field; `coeff p m` is the coefficient of the monomial `m`
+  (`Lemmas/C08Mv.lean` identifies the model with Mathlib's `MvPolynomial (Fin 6) K`, its bracket with the canonical
+  Poisson bracket and `coeff` with `MvPolynomial.coeff`).  The thresholds of the code are abstract predicates:
+  `small d ⇔ |d| < 1e-14` (guard of `_solve_homological_equation`), `res d ⇔ |d| < resonance_tol`, `tiny c ⇔ |c| <= tol`.
+  Theorems on whole transforms assume *exact cleaning* (`tiny c → c = 0`: with `tol = 1e-30` the code removes only what
+  is zero in exact arithmetic) and that a non-small divisor is non-zero; float rounding is measured by the harness.
+  The model is tied to the source on every run by `harness/props/c08.py` (regenerated `Gen/C08.lean` + correspondence).
+-/
+import HitenModel.Lemmas.C08NF
+import HitenModel.Gen.C08
+import Mathlib.Analysis.Complex.Norm
+
+set_option linter.unusedSectionVars false
+set_option linter.unusedSimpArgs false
+set_option linter.unusedVariables false
+
+namespace HitenModel.Props.C08
+open HitenModel HitenModel.C08 MvPolynomial
+
+section field
+variable {K : Type} [Field K] [DecidableEq K]
+
+/-! ### the homological equation -/
+
+/-- the homological operator of the code is diagonal on monomials: `{H2, G}` has at `q^kq p^kp` the coefficient
+`⟨kp - kq, eta⟩ · G[k]`, where `{·,·}` is the *code's* bracket, `H2 = Σ eta_j q_j p_j` and the divisor is the
+expression `(k3-k0)*eta0 + (k4-k1)*eta1 + (k5-k2)*eta2` of `_solve_homological_equation` — all `G`, all exponents -/
+theorem homological_operator_diagonal (e1 e2 e3 : K) (G : Poly K) (m : Mono) :
+    coeff (poisson (H2 e1 e2 e3) G) m = divisor e1 e2 e3 m * coeff G m :=
+  coeff_poisson_H2 e1 e2 e3 G m
+
+/-- **`_solve_homological_equation` solves `{H2, G} + p_elim = 0`** on every monomial whose divisor is not guarded
+out (any field, any `eta`, any `p_elim` of any degree, any guard that lets only non-zero divisors through); on a
+guarded monomial `G` and hence `{H2,G}` vanish, i.e. that term of `p_elim` is left alone -/
+theorem homological_solves (small : K → Bool) (hsmall : ∀ d, small d = false → d ≠ 0) (e1 e2 e3 : K) (pElim : Poly K)
+    (m : Mono) :
+    (small (divisor e1 e2 e3 m) = false →
+        coeff (poisson (H2 e1 e2 e3) (solve small e1 e2 e3 pElim)) m + coeff pElim m = 0) ∧
+    (small (divisor e1 e2 e3 m) = true →
+        coeff (solve small e1 e2 e3 pElim) m = 0 ∧ coeff (poisson (H2 e1 e2 e3) (solve small e1 e2 e3 pElim)) m = 0) := by
+  constructor
+  · intro hs
+    have hd := hsmall _ hs
+    rw [coeff_poisson_H2, coeff_solve, hs]
+    simp only [Bool.false_eq_true, ↓reduceIte]
+    field_simp
+    ring
+  · intro hs
+    rw [coeff_poisson_H2, coeff_solve, hs]
+    simp
+
+/-! ### term selection -/
+
+/-- `_select_terms_for_elimination` returns exactly the part of the block with `k0 ≠ k3`; the rest (`k0 = k3`) is the
+complementary part: the two add up to the block -/
+theorem select_partial_spec (p : Poly K) (m : Mono) :
+    coeff (select selPartial p) m = (if m.a0 ≠ m.a3 then coeff p m else 0) ∧
+    coeff p m = coeff (select selPartial p) m + coeff (select (fun k => !selPartial k) p) m := by
+  rw [coeff_select, coeff_select]
+  by_cases h : m.a0 = m.a3 <;> simp [selPartial, h]
+
+/-- `_select_nonresonant_terms` returns exactly the monomials whose resonance value `⟨kp-kq, eta⟩` is not small -/
+theorem select_full_spec (res : K → Bool) (e1 e2 e3 : K) (p : Poly K) (m : Mono) :
+    coeff (select (selFull res e1 e2 e3) p) m = if res (divisor e1 e2 e3 m) = true then 0 else coeff p m := by
+  rw [coeff_select]
+  by_cases h : res (divisor e1 e2 e3 m) = true <;> simp [selFull, h]
+
+/-! ### degree bookkeeping -/
+
+/-- every term of `{p, q}` is produced by a term of degree `d` of `p` and a term of degree `n` of `q` and has degree
+`d + n - 2` -/
+theorem degree_bookkeeping (p q : Poly K) (t : Mono × K) (h : t ∈ poisson p q) :
+    ∃ u ∈ p, ∃ v ∈ q, t.1.deg + 2 = u.1.deg + v.1.deg :=
+  mem_poisson h
+
+/-- the truncated Lie series with a generator homogeneous of degree `n ≥ 3`, applied to a polynomial without constant
+and linear part: (i) leaves every coefficient of degree `< n` untouched, (ii) turns the block of degree `n` into
+`H_n + {H_2, G_n}` (only the first bracket of the quadratic part can reach degree `n`), (iii) creates nothing of degree
+`< 2` or `> N` — for every bracket count `Kc ≥ 1`, in particular the code's -/
+theorem lie_series_blocks (tiny : K → Bool) (htiny : ∀ c, tiny c = true → c = 0) (N n Kc : Nat) (G H : Poly K)
+    (hG : ∀ v ∈ G, v.1.deg = n) (hn : 3 ≤ n) (hN : n ≤ N) (hK : 1 ≤ Kc) (hH : DegBounds N H) :
+    (∀ m : Mono, m.deg < n → coeff (lieSeries tiny N Kc G H) m = coeff H m) ∧
+    (∀ m : Mono, m.deg = n → coeff (lieSeries tiny N Kc G H) m = coeff H m + coeff (poisson (block 2 H) G) m) ∧
+    DegBounds N (lieSeries tiny N Kc G H) :=
+  ⟨fun _ hm => coeff_lieSeries_lt htiny hG (by omega) hH hm,
+   fun _ hm => coeff_lieSeries_eq htiny hG hn hH hK hm hN,
+   lieSeries_degBounds hG (by omega) hH⟩
+
+/-- **the bracket counts the current code takes are sufficient** (table regenerated from the source on every run by
+executing `_apply_poly_transform` / `_apply_coord_transform` with a counting `_factorial`, all
+`3 ≤ deg_G ≤ N_max ≤ 10`): after `K` brackets of a polynomial of degree `≥ 2` (Hamiltonian) resp. `≥ 1` (coordinate)
+the next bracket lies beyond degree `N_max`, i.e. is truncated away entirely -/
+theorem K_observed_sufficient :
+    ∀ r ∈ Gen.C08.kTable, r.1 < 2 + r.2.2.1 * (r.2.1 - 2) + (r.2.1 - 2) ∧ r.1 < 1 + r.2.2.2 * (r.2.1 - 2) + (r.2.1 - 2) := by
+  decide
+
+/-- the same for the model's formulas `K = max(N, (N-n)//(n-2)+1)`, `K_max = max(N, (N-1)//(n-2)+1)` — all `N`, `n ≥ 3` -/
+theorem K_sufficient (N n : Nat) (hn : 3 ≤ n) :
+    N < 2 + Kpoly N n * (n - 2) + (n - 2) ∧ N < 1 + Kcoord N n * (n - 2) + (n - 2) := by
+  unfold Kpoly Kcoord
+  rw [if_pos (by omega), if_pos (by omega)]
+  have h1 : N ≤ max N ((N - n) / (n - 2) + 1) * (n - 2) :=
+    le_trans (Nat.le_max_left _ _) (Nat.le_mul_of_pos_right _ (by omega))
+  have h2 : N ≤ max N ((N - 1) / (n - 2) + 1) * (n - 2) :=
+    le_trans (Nat.le_max_left _ _) (Nat.le_mul_of_pos_right _ (by omega))
+  omega
+
+/-- beyond the degree bound the series has nothing left: once every term of `B` has degree `> N - (n-2)`, all further
+terms `(1/k!) B_k` are empty -/
+theorem lie_series_tail_empty (tiny : K → Bool) (N n : Nat) (G : Poly K) (hG : ∀ v ∈ G, v.1.deg = n) (hn : 2 ≤ n)
+    (Kc k : Nat) (B : Poly K) (hB : ∀ u ∈ B, N < u.1.deg + (n - 2)) : lieTerms tiny N G Kc k B = [] := by
+  induction Kc generalizing k B with
+  | zero => rfl
+  | succ Kc ih =>
+    have hnil : clean tiny (trunc N (poisson B G)) = [] := by
+      apply List.eq_nil_iff_forall_not_mem.mpr
+      intro u hu
+      have := mem_bracketStep (tiny := tiny) (N := N) (d := N + 1 - (n - 2)) hG hn (B := B)
+        (fun w hw => by have := hB w hw; omega) u hu
+      omega
+    simp only [lieTerms, hnil]
+    rw [ih (k + 1) [] (by simp)]
+    simp [scale]
+
+/-- **any sufficient bracket count gives the same series**: if the terms of `X` have degree `≥ d` and `Kc` brackets
+already exhaust the degrees `≤ N` (`N < d + Kc (n-2) + (n-2)`), taking `extra` more brackets changes nothing.  With
+`K_observed_sufficient` / `K_sufficient`: the code's and the model's counts produce the complete truncated series. -/
+theorem lie_series_K_independent (tiny : K → Bool) (N n : Nat) (G : Poly K) (hG : ∀ v ∈ G, v.1.deg = n) (hn : 2 ≤ n)
+    (Kc extra d : Nat) (X : Poly K) (hX : ∀ u ∈ X, d ≤ u.1.deg) (hK : N < d + Kc * (n - 2) + (n - 2)) :
+    lieSeries tiny N (Kc + extra) G X = lieSeries tiny N Kc G X := by
+  have key : ∀ (Kc k d : Nat) (B : Poly K), (∀ u ∈ B, d ≤ u.1.deg) → N < d + Kc * (n - 2) + (n - 2) →
+      lieTerms tiny N G (Kc + extra) k B = lieTerms tiny N G Kc k B := by
+    intro Kc
+    induction Kc with
+    | zero =>
+      intro k d B hB hK
+      rw [Nat.zero_add, lie_series_tail_empty tiny N n G hG hn extra k B (fun u hu => by have := hB u hu; omega)]
+      rfl
+    | succ Kc ih =>
+      intro k d B hB hK
+      have e : Kc + 1 + extra = (Kc + extra) + 1 := by omega
+      rw [e]
+      simp only [lieTerms]
+      rw [ih (k + 1) (d + (n - 2)) _ (fun u hu => (mem_bracketStep (tiny := tiny) (N := N) hG hn hB u hu).1)
+        (by rw [Nat.add_mul] at hK; omega)]
+  unfold lieSeries
+  rw [key Kc 0 d X hX hK]
+
+/-- `ad_G = {·, G}` of the code is a **derivation** of the polynomial algebra (Leibniz rule), stated in Mathlib's
+`MvPolynomial (Fin 6) K` through the denotation `toMv` (`toMv (mul p q) = toMv p * toMv q`).  Together with
+`degree_bookkeeping` (`ad_G` raises degrees by `deg G - 2 ≥ 1`, hence is nilpotent modulo degree `> N`) and
+`lie_series_K_independent` (the Hamiltonian and the six coordinates are transformed by the *same* complete truncated
+series `Σ ad_G^k / k!`) these are the hypotheses of the textbook theorem "the exponential of a nilpotent derivation is an
+algebra automorphism" that gives `H_new = H_old ∘ Φ` modulo degree `N+1`.  That theorem itself, canonicity (Jacobi)
+and `forward ∘ inverse = id` are **not** formalised here: sentence 2 of the property is `partial` and is checked
+coefficient-wise / by fitted exponents on the real code by the harness. -/
+theorem ad_is_derivation_partial (p q g : Poly K) :
+    toMv (poisson (mul p q) g) = toMv p * toMv (poisson q g) + toMv (poisson p g) * toMv q ∧
+    toMv (poisson (p ++ q) g) = toMv (poisson p g) + toMv (poisson q g) ∧
+    toMv (poisson p g) = - toMv (poisson g p) := by
+  simp only [toMv_poisson, toMv_mul, toMv_append]
+  exact ⟨PB_mul_left _ _ _, PB_add_left _ _ _, PB_antisymm _ _⟩
+
+/-! ### the normal forms -/
+
+/-- **loop invariant and result of `_lie_transform`** (both variants; `c.sel` is the selection rule).  For every
+degree `N`, every `eta`, every input `H` without constant/linear part whose quadratic part is `Σ eta_j q_j p_j`:
+the transformed Hamiltonian (i) contains no selected monomial of degree `3..N` whose divisor passed the guard,
+(ii) has the same quadratic part, (iii) still has no constant/linear part and nothing beyond degree `N`. -/
+theorem normal_form_invariant (c : Cfg K) (htiny : ∀ x, c.tiny x = true → x = 0) (hsmall : ∀ d, c.small d = false → d ≠ 0)
+    (H : Poly K) (hdeg : DegBounds c.N H) (hquad : QuadIs c.e1 c.e2 c.e3 H) :
+    NormalUpTo c (lieTransform c H).trans c.N ∧ QuadIs c.e1 c.e2 c.e3 (lieTransform c H).trans ∧
+      DegBounds c.N (lieTransform c H).trans := by
+  by_cases hN : 2 ≤ c.N
+  · obtain ⟨d, q, nf, _⟩ := lieLoop_invariant c htiny hsmall ⟨H, [], []⟩ hdeg hquad (c.N - 2) (by omega)
+    have e : 2 + (c.N - 2) = c.N := by omega
+    rw [e] at nf
+    exact ⟨nf, q, d⟩
+  · have e : c.N - 2 = 0 := by omega
+    have e2 : (lieTransform c H).trans = H := by simp [lieTransform, lieLoop, e]
+    rw [e2]
+    exact ⟨fun m h3 hle => by omega, hquad, hdeg⟩
+
+/-- **partial normal form** (`center/_lie.py`): after `_lie_transform` no monomial of degree `3..N` with `k0 ≠ k3`
+and unguarded divisor survives — all `N`, all `eta`, all admissible inputs -/
+theorem partial_normal_form_invariant (c : Cfg K) (hsel : c.sel = selPartial) (htiny : ∀ x, c.tiny x = true → x = 0)
+    (hsmall : ∀ d, c.small d = false → d ≠ 0) (H : Poly K) (hdeg : DegBounds c.N H) (hquad : QuadIs c.e1 c.e2 c.e3 H)
+    (m : Mono) (h3 : 3 ≤ m.deg) (hN : m.deg ≤ c.N) (hk : m.a0 ≠ m.a3) (hs : c.small (divisor c.e1 c.e2 c.e3 m) = false) :
+    coeff (lieTransform c H).trans m = 0 :=
+  (normal_form_invariant c htiny hsmall H hdeg hquad).1 m h3 hN (by simp [hsel, selPartial, hk]) hs
+
+/-- **full normal form** (`normal/_lie.py`): only resonant monomials survive in degrees `3..N` (resonant = the code's
+test `|⟨kp-kq, eta⟩| < resonance_tol`), provided the guard threshold does not exceed the resonance tolerance
+(`small d → res d`; for the shipped constants see `guard_below_default_resonance_tol`) -/
+theorem full_normal_form_invariant (c : Cfg K) (res : K → Bool) (hsel : c.sel = selFull res c.e1 c.e2 c.e3)
+    (hres : ∀ d, c.small d = true → res d = true) (htiny : ∀ x, c.tiny x = true → x = 0)
+    (hsmall : ∀ d, c.small d = false → d ≠ 0) (H : Poly K) (hdeg : DegBounds c.N H) (hquad : QuadIs c.e1 c.e2 c.e3 H)
+    (m : Mono) (h3 : 3 ≤ m.deg) (hN : m.deg ≤ c.N) (hm : coeff (lieTransform c H).trans m ≠ 0) :
+    res (divisor c.e1 c.e2 c.e3 m) = true := by
+  by_contra hr
+  have hr' : res (divisor c.e1 c.e2 c.e3 m) = false := by simpa using hr
+  have hs : c.small (divisor c.e1 c.e2 c.e3 m) = false := by
+    by_contra h
+    have := hres _ (by simpa using h)
+    rw [hr'] at this; exact Bool.noConfusion this
+  exact hm ((normal_form_invariant c htiny hsmall H hdeg hquad).1 m h3 hN (by simp [hsel, selFull, hr']) hs)
+
+/-! ### consequences of `k0 = k3` in every monomial -/
+
+theorem eval_pderiv_eq_zero (f : MvPolynomial (Fin 6) K) (z : Fin 6 → K) (i j : Fin 6) (hij : i ≠ j) (hz : z j = 0)
+    (hs : ∀ s ∈ f.support, s i = s j) : MvPolynomial.eval z (pderiv i f) = 0 := by
+  conv_lhs => rw [f.as_sum]
+  rw [map_sum, map_sum]
+  apply Finset.sum_eq_zero
+  intro s hsupp
+  rw [pderiv_monomial, eval_monomial]
+  by_cases h0 : s i = 0
+  · simp [h0]
+  · have hj : (s - Finsupp.single i 1 : Fin 6 →₀ ℕ) j ≠ 0 := by
+      have := hs s hsupp
+      simp only [Finsupp.coe_tsub, Pi.sub_apply, Finsupp.single_apply, hij, ↓reduceIte]
+      omega
+    have : ((s - Finsupp.single i 1).prod fun n e => z n ^ e) = 0 := by
+      apply Finset.prod_eq_zero (Finsupp.mem_support_iff.mpr hj)
+      show z j ^ _ = 0
+      rw [hz, zero_pow hj]
+    rw [this, mul_zero]
+
+/-- **the centre manifold is invariant and `q1 p1` is a formal integral**: if every monomial of `H` has `k0 = k3`, then
+`∂H/∂p1` and `∂H/∂q1` vanish at every point with `q1 = p1 = 0` (so `q1' = p1' = 0` there), and `{q1 p1, H} = 0` -/
+theorem cm_invariant (H : Poly K) (hgood : ∀ m : Mono, coeff H m ≠ 0 → m.a0 = m.a3) :
+    (∀ z : ℕ → K, z 0 = 0 → z 3 = 0 → evalPoly z (diff 3 H) = 0 ∧ evalPoly z (diff 0 H) = 0) ∧
+    (∀ m : Mono, coeff (poisson (H2 1 0 0) H) m = 0) := by
+  have hsupp : ∀ s ∈ (toMv H).support, s 0 = s 3 := by
+    intro s hs
+    have hc := MvPolynomial.mem_support_iff.mp hs
+    rw [← Mono.toFinsupp_ofFun s, coeff_toMv] at hc
+    exact hgood _ hc
+  constructor
+  · intro z h0 h3
+    have e3 := toMv_diff (K := K) 3 H
+    have e0 := toMv_diff (K := K) 0 H
+    have v3 : ((3 : Fin 6) : ℕ) = 3 := rfl
+    rw [v3] at e3
+    simp only [Fin.val_zero] at e0
+    rw [evalPoly_toMv, evalPoly_toMv, e3, e0]
+    exact ⟨eval_pderiv_eq_zero _ _ 3 0 (by decide) (by simpa using h0) (fun s hs => (hsupp s hs).symm),
+           eval_pderiv_eq_zero _ _ 0 3 (by decide) (by simpa using h3) hsupp⟩
+  · intro m
+    rw [coeff_poisson_H2]
+    by_cases hc : coeff H m = 0
+    · rw [hc, mul_zero]
+    · have := hgood m hc
+      simp [divisor, this]
+
+/-- the partially normalised Hamiltonian has `k0 = k3` in *every* monomial when the guard never fires on a selected
+monomial (see `partial_divisor_bounded_below`), hence `cm_invariant` applies to the output of `_lie_transform` -/
+theorem partial_normal_form_cm_invariant (c : Cfg K) (hsel : c.sel = selPartial) (htiny : ∀ x, c.tiny x = true → x = 0)
+    (hsmall : ∀ d, c.small d = false → d ≠ 0) (hng : ∀ m : Mono, m.a0 ≠ m.a3 → c.small (divisor c.e1 c.e2 c.e3 m) = false)
+    (H : Poly K) (hdeg : DegBounds c.N H) (hquad : QuadIs c.e1 c.e2 c.e3 H) :
+    (∀ m : Mono, coeff (lieTransform c H).trans m ≠ 0 → m.a0 = m.a3) ∧
+    (∀ z : ℕ → K, z 0 = 0 → z 3 = 0 →
+      evalPoly z (diff 3 (lieTransform c H).trans) = 0 ∧ evalPoly z (diff 0 (lieTransform c H).trans) = 0) ∧
+    (∀ m : Mono, coeff (poisson (H2 1 0 0) (lieTransform c H).trans) m = 0) := by
+  obtain ⟨nf, q, d⟩ := normal_form_invariant c htiny hsmall H hdeg hquad
+  have hgood : ∀ m : Mono, coeff (lieTransform c H).trans m ≠ 0 → m.a0 = m.a3 := by
+    intro m hm
+    by_contra hk
+    have hmem : ∃ t ∈ (lieTransform c H).trans, t.1 = m := by
+      by_contra hne
+      exact hm (coeff_eq_zero_of_not_mem fun t ht e => hne ⟨t, ht, e⟩)
+    obtain ⟨t, ht, rfl⟩ := hmem
+    have hb := d t ht
+    by_cases h2 : t.1.deg = 2
+    · rw [q _ h2] at hm
+      have : ∃ u ∈ H2 c.e1 c.e2 c.e3, u.1 = t.1 := by
+        by_contra hne
+        exact hm (coeff_eq_zero_of_not_mem fun u hu e => hne ⟨u, hu, e⟩)
+      obtain ⟨u, hu, e⟩ := this
+      simp only [H2, List.mem_cons, List.not_mem_nil, or_false] at hu
+      rcases hu with h | h | h <;> (rw [h] at e; rw [← e] at hk; exact hk rfl)
+    · exact hm (nf t.1 (by omega) hb.2 (by simp [hsel, selPartial, hk]) (hng _ hk))
+  exact ⟨hgood, (cm_invariant _ hgood).1, (cm_invariant _ hgood).2⟩
+
+end field
+
+/-! ### the shipped constants -/
+
+/-- in the partial normal form the guard never fires: with `eta = (λ, iω₁, iω₂)` (λ, ω real) the divisor of a monomial
+with `k0 ≠ k3` has modulus `≥ |λ|` -/
+theorem partial_divisor_bounded_below (lam om1 om2 : ℝ) (m : Mono) (hk : m.a0 ≠ m.a3) :
+    open Classical in
+    |lam| ≤ ‖divisor (lam : ℂ) (Complex.I * om1) (Complex.I * om2) m‖ := by
+  classical
+  have hre : (divisor (lam : ℂ) (Complex.I * om1) (Complex.I * om2) m).re = ((m.a3 : ℝ) - (m.a0 : ℝ)) * lam := by
+    simp [divisor]
+  have h1 : (1 : ℝ) ≤ |((m.a3 : ℝ) - (m.a0 : ℝ))| := by
+    have : (1 : ℤ) ≤ |((m.a3 : ℤ) - (m.a0 : ℤ))| := by
+      apply Int.one_le_abs; omega
+    have h2 : ((|((m.a3 : ℤ) - (m.a0 : ℤ))| : ℤ) : ℝ) = |((m.a3 : ℝ) - (m.a0 : ℝ))| := by push_cast; rfl
+    rw [← h2]; exact_mod_cast this
+  calc |lam| = 1 * |lam| := (one_mul _).symm
+    _ ≤ |((m.a3 : ℝ) - (m.a0 : ℝ))| * |lam| := mul_le_mul_of_nonneg_right h1 (abs_nonneg _)
+    _ = |((m.a3 : ℝ) - (m.a0 : ℝ)) * lam| := (abs_mul _ _).symm
+    _ = |(divisor (lam : ℂ) (Complex.I * om1) (Complex.I * om2) m).re| := by rw [hre]
+    _ ≤ _ := Complex.abs_re_le_norm _
+
+/-- the guard threshold located in the compiled `_solve_homological_equation` does not exceed the default
+`resonance_tol` of the full normal form: a term selected as non-resonant is never skipped by the guard -/
+theorem guard_below_default_resonance_tol :
+    Gen.C08.guardTol ≤ Gen.C08.resonanceTolDefault ∧ 0 < Gen.C08.guardTol ∧
+    (∀ d : GQ, GQ.absLt Gen.C08.guardTol d = true → GQ.absLt Gen.C08.resonanceTolDefault d = true) ∧
+    (∀ d : GQ, GQ.absLt Gen.C08.guardTol d = false → d ≠ ⟨0, 0⟩) := by
+  have h1 : Gen.C08.guardTol ≤ Gen.C08.resonanceTolDefault := by
+    unfold Gen.C08.guardTol Gen.C08.resonanceTolDefault; norm_num
+  have h0 : 0 < Gen.C08.guardTol := by unfold Gen.C08.guardTol; norm_num
+  refine ⟨h1, h0, ?_, ?_⟩
+  · intro d hd
+    simp only [GQ.absLt, decide_eq_true_eq] at hd ⊢
+    exact lt_of_lt_of_le hd (mul_self_le_mul_self h0.le h1)
+  · intro d hd e
+    subst e
+    simp only [GQ.absLt, GQ.normSq, decide_eq_false_iff_not, not_lt] at hd
+    have : 0 < Gen.C08.guardTol * Gen.C08.guardTol := mul_pos h0 h0
+    simp at hd
+    linarith
+
+/-! ### non-vacuity -/
+
+/-- the hypotheses of the normal-form theorems are satisfiable by a non-trivial Hamiltonian (here over ℚ:
+`2 q1p1 + 3 q2p2 + 5 q3p3 + q1²p1 + 7 q1 q2 p1`, with one monomial to eliminate and one to keep) -/
+example : DegBounds 4 (H2 (2 : ℚ) 3 5 ++ [(⟨2, 0, 0, 1, 0, 0⟩, 1), (⟨1, 1, 0, 1, 0, 0⟩, 7)]) ∧
+    QuadIs (2 : ℚ) 3 5 (H2 (2 : ℚ) 3 5 ++ [(⟨2, 0, 0, 1, 0, 0⟩, 1), (⟨1, 1, 0, 1, 0, 0⟩, 7)]) ∧
+    selPartial ⟨2, 0, 0, 1, 0, 0⟩ = true ∧ selPartial ⟨1, 1, 0, 1, 0, 0⟩ = false ∧
+    divisor (2 : ℚ) 3 5 ⟨2, 0, 0, 1, 0, 0⟩ ≠ 0 := by
+  refine ⟨?_, ?_, rfl, rfl, ?_⟩
+  · intro t ht
+    simp only [H2, List.cons_append, List.nil_append, List.mem_cons, List.not_mem_nil, or_false] at ht
+    rcases ht with h | h | h | h | h <;> (rw [h]; decide)
+  · intro m hm
+    rw [coeff_append]
+    have : coeff ([(⟨2, 0, 0, 1, 0, 0⟩, 1), (⟨1, 1, 0, 1, 0, 0⟩, 7)] : Poly ℚ) m = 0 := by
+      apply coeff_eq_zero_of_not_mem
+      intro t ht e
+      simp only [List.mem_cons, List.not_mem_nil, or_false] at ht
+      rcases ht with h | h <;> (rw [h] at e; rw [← e] at hm; revert hm; decide)
+    rw [this, add_zero]
+  · norm_num [divisor]
+
+/-- a guard of the shape used by the code satisfies the guard hypothesis; exact cleaning is `tiny c ⇔ c = 0` -/
+example : (∀ d : ℚ, (decide (|d| < 1 / 100000000000000)) = false → d ≠ 0) ∧ (∀ c : ℚ, decide (c = 0) = true → c = 0) := by
+  constructor
+  · intro d hd e
+    subst e
+    simp at hd
+  · intro c hc; simpa using hc
 
 end HitenModel.Props.C08
